@@ -267,7 +267,7 @@ def check_pages(doc, p, control_doc=None, lower=False):
                                          name=pr["name"], expected=f"result({pr['ret']['name']})", got=t))
         # return values
         from harness.gen import c18decl as G
-        cands = [pr["ret"]["typ"] for pr in p["procs"] if pr["ret"]]
+        cands = [G.ret_text(pr["ret"]) for pr in p["procs"] if pr["ret"]]
         isite = None
         if p["iface"]:
             cands.append(G.iface_ret_text(p["iface"]))
@@ -280,7 +280,8 @@ def check_pages(doc, p, control_doc=None, lower=False):
                 continue
             stats["return_values"] += 1
             body = t[len("Return Value"):].strip()
-            ok = any(squash(c).replace(",", "") == squash(body).replace(",", "") for c in cands)
+            mine = [G.ret_text(pr["ret"]) for pr in p["procs"] if pr["ret"] and rel == f"proc/{pr['name']}.html"]
+            ok = any(squash(c).replace(",", "") == squash(body).replace(",", "") for c in (mine or cands))
             if not ok:
                 in_tb = h.find_parent(class_="card") is not None and rel.startswith("type/")
                 site = (isite if rel.startswith("interface/") else
